@@ -301,7 +301,7 @@ def _variant(k):
     return VARIANTS[1 + (k // 5) % (len(VARIANTS) - 1)] if k % 5 == 4 else "plain"
 
 
-_KS = [1, 2, 2, 2, 3, 3, 4, 5]
+_KS = [1, 1, 2, 2, 2, 2, 3, 3, 3, 3, 4, 5]  # the 4- and 5-species g(r) / S(q) are slow: 1 world in 12 each
 VARIANT_ST = st.integers(0, 2 ** 16).map(_variant)
 K_ST = st.integers(0, 2 ** 16).map(lambda k: _KS[_mix(k + 17) % len(_KS)])
 
@@ -687,15 +687,16 @@ def _sweep_world(root, **kw):
 # (output files on/off too?, families or None = all): "full" worlds run every (entry, params, output on/off); the others
 # every (entry, params) of the named families without output files
 _TIME = ("dyn", "boo", "s2", "nematic", "vec", "cg")
+_KARY_ONLY = ("gr.getresults", "gr.k-ary", "sq.getresults", "sq.k-ary")  # entry names: the methods that depend on K
 SWEEP_WORLDS = [
-    (True, None, dict(d=2, N=9, T=3, K=2, origin="arbitrary", cell="ortho", variant="plain")),
-    (True, None, dict(d=3, N=9, T=3, K=3, origin="zero", cell="ortho", variant="plain")),
+    (True, None, dict(d=2, N=8, T=3, K=2, origin="arbitrary", cell="ortho", variant="plain")),
+    (True, None, dict(d=3, N=8, T=3, K=3, origin="zero", cell="ortho", variant="plain")),
     (False, None, dict(d=2, N=8, T=2, K=1, origin="centred", cell="tri", variant="lab-shift")),
     (False, None, dict(d=3, N=8, T=2, K=2, origin="sumzero", cell="tri", variant="lab-gap")),
     (False, ("pair", "s2", "dyn", "neigh", "order", "hess"), dict(d=2, N=8, T=2, K=2, origin="zero", cell="ortho", variant="lab-zero")),
-    (False, ("pair",), dict(d=3, N=8, T=2, K=4, origin="zero", cell="ortho", variant="plain")),
-    (False, ("pair",), dict(d=2, N=8, T=2, K=5, origin="zero", cell="ortho", variant="plain")),
-    (False, ("pair",), dict(d=2, N=8, T=2, K=1, origin="zero", cell="ortho", variant="plain")),
+    (False, _KARY_ONLY, dict(d=3, N=8, T=2, K=4, origin="zero", cell="ortho", variant="plain")),
+    (False, _KARY_ONLY, dict(d=2, N=8, T=2, K=5, origin="zero", cell="ortho", variant="plain")),
+    (False, _KARY_ONLY, dict(d=2, N=8, T=2, K=1, origin="zero", cell="ortho", variant="plain")),
     (False, _TIME, dict(d=2, N=8, T=3, K=2, origin="zero", cell="ortho", variant="logtimes")),
     (False, _TIME, dict(d=3, N=8, T=3, K=1, origin="arbitrary", cell="tri", variant="logtimes")),
     (False, ("pair", "s2", "dyn", "neigh"), dict(d=3, N=8, T=3, K=2, origin="zero", cell="ortho", variant="perm-types")),
@@ -708,9 +709,9 @@ def _sweep_calls(outs, fams, w):
     for name, fn in CATALOGUE.items():
         if ONLY and name not in ONLY:
             continue
-        if not eligible(fn, w) or (fams is not None and fn.fam not in fams):
+        if not eligible(fn, w) or (fams is not None and fn.fam not in fams and name not in fams):
             continue
-        for p in range(len(fn.P)):
+        for p in range(len(fn.P) if fams is not _KARY_ONLY else 2):
             for out in ((False, True) if (fn.has_out and outs) else (False,)):
                 yield name, p, out
 
@@ -781,7 +782,8 @@ def gen_sweep(tier):
             covered_by.setdefault(q, []).append(ename)
     for q in sorted(inv):
         if q in tracer.direct:
-            tag, extra = "inventory: exercised directly", {"inventory_exercised": 1}
+            tag = f"inventory: exercised: {q.replace('PyMatterSim.', '')} <- " + ", ".join(sorted(covered_by.get(q, ["(world construction)"]))[:5])
+            extra = {"inventory_exercised": 1}
         elif q in tracer.indirect:
             tag = f"inventory: only reached through other routines: {q}"
             extra = {"inventory_only_indirect": 1}
@@ -819,17 +821,17 @@ def describe_sweep(case):
 
 # ============================================================================= facets
 
-_SINGLE_N = {"pair": (120, 6000), "neigh": (60, 4000), "voro": (60, 1500), "boo": (140, 4000), "dyn": (90, 4000),
-             "vec": (100, 5000), "cg": (50, 3000), "order": (50, 3000), "s2": (70, 3000), "nematic": (60, 3000),
+_SINGLE_N = {"pair": (90, 6000), "neigh": (60, 4000), "voro": (60, 1500), "boo": (110, 4000), "dyn": (90, 4000),
+             "vec": (80, 5000), "cg": (50, 3000), "order": (50, 3000), "s2": (60, 3000), "nematic": (50, 3000),
              "hess": (50, 2000), "misc": (60, 4000), "utils": (60, 3000), "reader": (40, 2000)}
 _SINGLE_SH = {"pair": 4, "boo": 4, "voro": 2, "dyn": 2, "vec": 2, "s2": 2}
 
 FACETS = [
-    Facet("machine", machine=PurityMachine, quick=180, thorough=6000, steps=10, describe=describe_machine, shards_quick=6,
+    Facet("machine", machine=PurityMachine, quick=150, thorough=6000, steps=10, describe=describe_machine, shards_quick=6,
           rule="call histories on one shared world (steps: call / repeat / vary parameters / rebuild inputs as fresh objects / "
                "mutate-and-restore); non-trivial = >= 2 different entry points and >= 1 repeated "
                "(entry, params, out) call with another call in between"),
-    Facet("chains", chain_st(), check_chain, quick=160, thorough=6000, describe=describe_chain, shards_quick=4,
+    Facet("chains", chain_st(), check_chain, quick=120, thorough=6000, describe=describe_chain, shards_quick=4,
           rule="4-7 drawn methods of one family (" + ", ".join(CHAIN_FAMILIES) + ") on ONE set of live analysis objects, then two "
                "of the earlier calls again; non-trivial = >= 2 different calls and a repeated call with another one in between"),
     Facet("flag_coverage", check=gen_sweep, exhaustive=True, describe=describe_sweep,
